@@ -58,6 +58,7 @@ pub fn properties_of(v: &Violation) -> Vec<&'static str> {
                 vec!["C01"]
             }
         }
+        "I12" => vec!["C06"],
         "H1" | "H2" => vec!["C16"],
         "H3" => vec!["C16", "C06"],
         _ => vec![],
